@@ -71,6 +71,9 @@ def make_scratch():
         model = os.path.join(VERIF, "models", "hashbrown", "Cargo.toml")
         if os.path.exists(model):
             f.write('\n[patch.crates-io]\nhashbrown = { path = "%s" }\n' % os.path.dirname(model))
+            fnv = os.path.join(VERIF, "models", "fnv")
+            if os.path.exists(os.path.join(fnv, "Cargo.toml")):
+                f.write('fnv = { path = "%s" }\n' % fnv)
     return scratch
 
 
@@ -176,7 +179,7 @@ def summarise_kani(data, out):
             "covers": covers,
             "unsat_covers": unsat_covers,
             "functions": functions,
-            "stats": stats.get(hid, {}),
+            "stats": stats.get(hid) or {},
             "should_panic": False,
         }
     for m in data.get("harness_metadata", []):
